@@ -92,6 +92,12 @@ func c09SweepRun(t rec.TB, r *rec.Rec, cs *c09SweepCase) {
 		}
 	}
 	r.ClassN("unsafe-vaults", len(unsafe))
+	for _, v := range open {
+		if p := m.product(m.productIdxByID(v.ExtendedPairVaultID)); !m.cs.Cfg.Liq.Apps[p.App].Whitelisted || !m.cs.Cfg.Liq.Apps[p.App].Dutch {
+			r.Class("population-contains-vault-of-disabled-app")
+			break
+		}
+	}
 	if len(open) > batch {
 		r.Class("population-larger-than-batch")
 		r.NonTrivial(cs)
@@ -106,8 +112,17 @@ func TestC09_sweep(t *testing.T) {
 			cfg := genVCfg(rt, "C09", true)
 			cfg.NUsers = rapid.IntRange(3, 8).Draw(rt, "sweepusers")
 			cfg.Liq.Batch = uint64(rapid.SampledFrom([]int{1, 2, 3, 5}).Draw(rt, "sweepbatch"))
+			// at least one app enabled; the others may be not white-listed or have dutch auctions off:
+			// their vaults make the sweep's per-vault step fail, which must not stop the sweep
+			en := rapid.IntRange(0, len(cfg.Liq.Apps)-1).Draw(rt, "enabledapp")
 			for i := range cfg.Liq.Apps {
-				cfg.Liq.Apps[i] = vLiqApp{Whitelisted: true, Dutch: true, English: true}
+				switch {
+				case i == en:
+					cfg.Liq.Apps[i] = vLiqApp{Whitelisted: true, Dutch: true, English: true}
+				default:
+					k := rapid.IntRange(0, 2).Draw(rt, fmt.Sprintf("appmode%d", i))
+					cfg.Liq.Apps[i] = vLiqApp{Whitelisted: k != 0, Dutch: k == 2, English: true}
+				}
 			}
 			for i := range cfg.Products {
 				cfg.Products[i].Stable = false
